@@ -26,10 +26,12 @@ def main(run):
     run.cov["rule"] = (
         "oracle on the implementation: prototype crystals (all centrings) x supercell matrices (diagonal, non-diagonal) x "
         "force constants {random non-symmetric k/8, pair-potential short range (space-group symmetric, sum rules), "
-        "random lattice-periodic then symmetrised by Phonopy.symmetrize_force_constants}; q random / commensurate / zone boundary / outside "
+        "pair-potential long range (periodic-image sums), random lattice-periodic then symmetrised by Phonopy.symmetrize_force_constants}; q random / commensurate / zone boundary / outside "
         "the first zone; identities evaluated through Phonopy.run_qpoints(with_dynamical_matrices=True) for full and "
         "compact fc, OpenMP and serial library: D = D^dagger, D(-q) = conj D(q), D(q+G) = U^dagger D(q) U and equal "
-        "spectra, spectra of q and Rq for every R in primitive_symmetry.reciprocal_operations (symmetric fc), three zero "
+        "spectra, spectra of q and Rq for every R in primitive_symmetry.reciprocal_operations (symmetric short-range fc), "
+        "D(Rq) = Gamma D(q) Gamma^T for every space-group operation that maps the supercell onto itself (any range; the "
+        "index maps of the operation are certified by the Lean model: svecsInvariantOk, svdev), three zero "
         "eigenvalues at Gamma (sum-rule fc), eigenvalues and matrices x s/t after fc*s and Phonopy.masses = t*masses; "
         "tolerance 1e-8*||D||. correspondence: a sample of cases against the Lean model (the full correspondence is C02's). "
         "Non-trivial = supercell larger than the primitive cell, q not Gamma (except the acoustic clause), matrix non-zero.")
@@ -61,7 +63,7 @@ def main(run):
                               [[-2, 2, 2], [2, -2, 2], [2, 2, -2]], [[0, 2, 2], [2, 0, 2], [2, 2, 0]], [[2, 1, 0], [-1, 2, 0], [0, 0, 2]])]
     cases = []
     attempts = 0
-    plan = [["random", "pair-short", "pair-short", "symmetrised"][i % 4] for i in range(ncases)]
+    plan = [["random", "pair-short", "pair-long", "symmetrised", "pair-short", "pair-long"][i % 6] for i in range(ncases)]
     while len(cases) < ncases and attempts < 200 * ncases:
         attempts += 1
         name = rng.choice(names)
@@ -91,6 +93,17 @@ def main(run):
                 continue
             kfun, kdesc = U.make_kfun(rng)
             fc = gen.pair_fc(sc, cutoff, kfun=kfun, images=U.images_needed(sc.cell, cutoff))
+            info.update(cutoff=float(cutoff), kfun=kdesc)
+        elif fckind == "pair-long":
+            # range beyond half the supercell: the supercell force constants are periodic-image sums
+            nn = U.nn_distance(cell)
+            lo = max(nn * 1.01, 0.55 * minv)
+            cutoff = rng.uniform(lo, max(lo * 1.05, 1.3 * minv))
+            im = U.images_needed(sc.cell, cutoff)
+            if im > 4 or ns ** 2 * (2 * im + 1) ** 3 > 1.5e6:
+                continue
+            kfun, kdesc = U.make_kfun(rng)
+            fc = gen.pair_fc(sc, cutoff, kfun=kfun, images=im)
             info.update(cutoff=float(cutoff), kfun=kdesc)
         else:
             fcseed = rng.randrange(10 ** 9)
@@ -218,8 +231,54 @@ def main(run):
                         if variant == "omp" and layout == "full":
                             run.case(("rot", info["cell"], info["smat"], info["pmat"], info.get("cutoff"), tuple(map(float, qq))),
                                      nontrivial=len(rops) > 2 and float(np.abs(D[n]).max()) > 0)
+                # operations that map the supercell onto itself: D(Rq) = Gamma D(q) Gamma^T for ANY q and ANY range
+                # (theorem dynmat_rotation); its hypotheses are evaluated on the implementation's data
+                if kind in ("pair-short", "pair-long"):
+                    Tt = U.dm_tables(ph.dynamical_matrix)
+                    ops = ph.primitive_symmetry.symmetry_operations
+                    nop = len(ops["rotations"])
+                    sel = list(range(nop)) if (thorough or nop <= 8) else sorted(rng.sample(range(nop), 8))
+                    for r in sel:
+                        try:
+                            mp = U.sym_maps(ph, Tt, ops["rotations"][r], ops["translations"][r])
+                        except ValueError as ex:
+                            viol("Primitive.get_smallest_vectors", "table-not-invariant",
+                                 "a space-group operation preserving the supercell does not map the tables onto themselves: %s" % ex,
+                                 None, R=np.array(ops["rotations"][r]).tolist())
+                            continue
+                        if mp is None:
+                            run.count("operation does not preserve the supercell", section="oracle")
+                            continue
+                        if layout == "full":
+                            dev = max(float(np.abs(fc[Tt["p2s"][mp["pi"][i]], mp["kap"][i]] - np.einsum("ab,kbc,dc->kad", mp["Q"], fc[Tt["p2s"][i]], mp["Q"])).max())
+                                      for i in range(npa))
+                            if dev > 1e-9 * float(np.abs(fc).max()):
+                                run.broke("harness", "generated pair force constants are not covariant under the operation (dev %.3g)" % dev, info)
+                        G_ = U.gamma_matrix(mp, npa)
+                        qsel = [qq for qk, qq in zip(kinds, qlist) if qk != "gamma"]
+                        DR, FR = dyn(ph, [mp["rq"] @ qq for qq in qsel])
+                        for qq, dr in zip(qsel, DR):
+                            n0 = [n for n in range(nq) if qlist[n] is qq][0]
+                            nd = norm(D[n0], floor)
+                            want = G_ @ D[n0] @ G_.T
+                            if np.abs(dr - want).max() > TOL * nd:
+                                viol("Phonopy.run_qpoints", "rotation-matrix/%s/%s" % (kind, layout),
+                                     "D(Rq) != Gamma D(q) Gamma^T: max diff %.3g (||D|| = %.3g)" % (np.abs(dr - want).max(), nd),
+                                     qq, R=np.array(ops["rotations"][r]).tolist())
+                            er = np.linalg.eigvalsh((dr + dr.conj().T) / 2)
+                            e0 = np.linalg.eigvalsh((D[n0] + D[n0].conj().T) / 2)
+                            if np.abs(er - e0).max() > TOL * nd:
+                                viol("Phonopy.run_qpoints", "rotation-spectrum/%s/%s" % (kind, layout),
+                                     "spectrum at Rq differs from spectrum at q by %.3g" % np.abs(er - e0).max(), qq,
+                                     R=np.array(ops["rotations"][r]).tolist())
+                        run.count("rotation (supercell-preserving op) %s/%s" % (kind, layout), len(qsel), section="oracle")
+                        if variant == "omp" and layout == "full":
+                            run.case(("rotT", info["cell"], info["smat"], info["pmat"], info.get("cutoff"), r),
+                                     nontrivial=not (np.array(ops["rotations"][r]) == np.eye(3)).all() and float(np.abs(D[:nq]).max()) > 0)
+                            c.setdefault("symops", []).append((r, mp))
+                            c["T"] = Tt
                 # acoustic modes at Gamma (sum rule holds: pair potential or symmetrised)
-                if kind in ("pair-short", "symmetrised"):
+                if kind in ("pair-short", "pair-long", "symmetrised"):
                     DG, FG = dyn(ph, [np.zeros(3)])
                     eg = np.linalg.eigvalsh((DG[0] + DG[0].conj().T) / 2)
                     nd = norm(DG[0], floor)
@@ -289,12 +348,39 @@ def main(run):
                 dm.run(q2, lang="C")
                 lines.append(U.model_line("c", T, False, U.c_phases(q2, T["svecs"]), c["fc"]))
                 meta.append((c, qk, q2, dm.dynamical_matrix.copy(), T))
+    # certificates of dynmat_rotation, evaluated by the Lean model on the implementation's tables for every
+    # (crystal, supercell-preserving operation) met above whose tables are small enough
+    budget = 400 if thorough else 90
+    for c in cases:
+        if "symops" not in c or budget <= 0:
+            continue
+        Tt = c["T"]
+        if Tt["np"] * Tt["ns"] * len(Tt["svecs"]) > (200000 if thorough else 60000):
+            continue
+        for r, mp in c["symops"]:
+            if budget <= 0:
+                break
+            budget -= 1
+            lines.append(U.svinv_line(Tt, False, mp))
+            meta.append(("svinv", c, r))
+            lines.append(U.svinv_line(Tt, True, mp))
+            meta.append(("svinv", c, r))
+            lines.append(U.svdev_line(Tt, mp))
+            meta.append(("svdev", c, r))
     if lines:
         out = common.lean_run_driver("C03", lines)
         if len(out) != len(lines):
             run.broke("correspondence", "driver answered %d lines for %d requests" % (len(out), len(lines)))
         ncmp = 0
-        for (c, qk, q2, impl, T), line in zip(meta, out):
+        for mt, line in zip(meta, out):
+            if mt[0] in ("svinv", "svdev"):
+                run.count("%s-certificates" % mt[0], section="correspondence")
+                if line != "true":
+                    what = ("svecsInvariantOk = %s" if mt[0] == "svinv" else "image of a stored vector is not the stored vector named by sig (svdev = %s)") % line
+                    run.broke("correspondence", what + " on the implementation's tables", dict(mt[1]["info"], op=int(mt[2])))
+                    run.violation("Primitive.get_smallest_vectors", "table-not-invariant", what, dict(mt[1]["info"], op=int(mt[2])))
+                continue
+            (c, qk, q2, impl, T) = mt
             model = U.parse_dm(line, T["np"])
             if model is None:
                 run.broke("correspondence", "model rejected input", c["info"])
